@@ -7,6 +7,7 @@ Every reply carries
 * `model`  — the algorithmic model of the repaired tree (what the theorems are about),
 * `pinned` — the model of the pinned tree (replicate masks cut from `arange(T)`, early return
   for `T = 0`), used only to recognise the specific wrong behaviour of a known defect,
+* `model_f64` (`c09.shift` only) — `randomShiftF64`: the same model with the amounts in double precision,
 * `spec`   — the per-sequence oracle (`padSeq` / `chunkSeq` / `compact`), `null` when the
   request is outside the property's domain, `{"error": cls}` for an illegal request.
 -/
@@ -149,6 +150,9 @@ def c09Shift : Handler := fun c => do
     (⟨xl.1, xl.2, u.1, u.2⟩ : ShiftRow Frame)) (x.zip lens) (u0.zip u1)
   let model := randomShift false mode value T p0 p1 training rows
   let pinned := randomShift true mode value T p0 p1 training rows
+  -- the same request with the amounts in double precision: what the repaired library computes, also where
+  -- a product lands within an ulp of an integer and exact arithmetic gives another floor (C09_shift_float64)
+  let modelF64 := randomShiftF64 false mode value T p0 p1 training rows
   let pads := rows.map (fun s => (shiftAmount p0 s.len s.u0, shiftAmount p1 s.len s.u1))
   let spec : Json :=
     if !training then
@@ -166,6 +170,7 @@ def c09Shift : Handler := fun c => do
   let amt := fun (f : Rat → Nat → Rat → Nat) =>
     listJ (fun (s : ShiftRow Frame) => listJ natJ [f p0 s.len s.u0, f p1 s.len s.u1]) rows
   pure (objJ [("model", res2J model), ("pinned", res2J pinned), ("spec", spec),
+    ("model_f64", res2J modelF64),
     ("amounts_f64", amt shiftAmountF64), ("amounts_f32", amt shiftAmountF32),
     ("amounts_exact", amt shiftAmount)])
 
